@@ -169,6 +169,8 @@ type Sys struct {
 	disclosed [][][]byte
 	panicked  bool
 	fragEarly bool // a piece other than the last one of a unit produced something
+	sentEnc   map[string]bool // texts given to Send while the sender was encrypted (i.e. transmitted at once)
+	lastOp    map[int]string  // the most recent API call of each party
 }
 
 func newSys(pols []int, seed uint64) *Sys {
@@ -373,6 +375,10 @@ func (s *Sys) record(who int, coq string, human string, f func(p *Party) (plain 
 	if plain != nil {
 		pv = B(plain)
 	}
+	if s.lastOp == nil {
+		s.lastOp = map[int]string{}
+	}
+	s.lastOp[who] = human
 	s.ops = append(s.ops, coq)
 	s.obs = append(s.obs, L(pv, N(errc), VL(evs), VL(ows), s.obsState(who)))
 	s.calls = append(s.calls, callRec{who: who, human: human, preState: pre, postState: otr3.VerifSnapshot(p.c).MsgState,
@@ -446,6 +452,10 @@ func coqBytes(b []byte) string {
 func (s *Sys) Send(who int, text []byte) [][]byte {
 	p := s.ps[who]
 	p.texts = append(p.texts, text)
+	if s.sentEnc == nil {
+		s.sentEnc = map[string]bool{}
+	}
+	s.sentEnc[string(text)] = p.c.IsEncrypted()
 	_, outs, _ := s.record(who, fmt.Sprintf("OSend %d %d %s", who, s.now, coqBytes(text)), fmt.Sprintf("Send(%d,%q)", who, text),
 		func(p *Party) ([]byte, []otr3.ValidMessage, error) {
 			o, e := p.c.Send(text)
